@@ -173,10 +173,8 @@ func split(ctx context.Context, node *mastNode, key interface{}, mast *Mast) (le
 			return nil, nil, err
 		}
 	}
-	// TODO: common case maybe not dirty
-	node.dirty = true
-	node.expected = nil
-	node.source = nil
+	// The source node is left untouched: it may be shared with other versions
+	// or sit in the node cache, where other goroutines read it.
 	return leftLink, rightLink, nil
 }
 
